@@ -328,7 +328,7 @@ struct Program {
     Seg prefix, suffix;
     u32 pc0 = 0, end_marker = 0;
     std::vector<u16> image;
-    bool has_counter_store = false, has_sto_rst = false, has_rep_inside = false;
+    bool has_counter_store = false, has_sto_rst = false, has_rep_inside = false, rep_at_block_end = false;
 };
 
 const char* CountClass(u32 n) {
@@ -634,15 +634,23 @@ int main(int argc, char** argv) {
                         L.pre.ins.insert(L.pre.ins.begin() + g.below(L.pre.ins.size() + 1), st);
                     pr.has_counter_store = true;
                 }
-                // rep inside a block (not at its end)
+                // rep inside a block, also with its target as the last instruction of the block
                 if (!big && g.chance(1, 6)) {
                     Ins rp, x = rand_ins(false, true);
                     rp.kind = K_REP;
                     rp.rep_count = (u16)g.below(5);
                     rp.w[0] = Need("rep", {P<Imm8>(rp.rep_count)}, 0)[0]; // rep #imm8 = 0x0C00 | imm8
-                    size_t at = g.below(L.pre.ins.size() + 1);
-                    L.pre.ins.insert(L.pre.ins.begin() + at, x);
-                    L.pre.ins.insert(L.pre.ins.begin() + at, rp);
+                    if (g.chance(1, 3)) {
+                        // the repeated instruction is the LAST instruction of the block: the block-end test must
+                        // still be made when its final repetition has been fetched
+                        L.post.ins.push_back(rp);
+                        L.post.ins.push_back(x);
+                        pr.rep_at_block_end = true;
+                    } else {
+                        size_t at = g.below(L.pre.ins.size() + 1);
+                        L.pre.ins.insert(L.pre.ins.begin() + at, x);
+                        L.pre.ins.insert(L.pre.ins.begin() + at, rp);
+                    }
                     pr.has_rep_inside = true;
                 }
                 // loop-frame save/restore pair inside the running loop, followed by at least one more
@@ -1110,6 +1118,8 @@ int main(int argc, char** argv) {
                     ctx.seen("count_registers", RegStr(pr.rep_reg));
             } else {
                 ctx.count(fmt("bkrep_programs_depth%u", depth));
+                if (pr.rep_at_block_end)
+                    ctx.count("rep_target_is_last_block_instruction");
                 for (unsigned d = 0; d < depth; ++d) {
                     const Loop& L = pr.loops[d];
                     ctx.count(fmt("bkrep_form_%s", L.form == 0 ? "imm8" : L.form == 1 ? "reg" : "r6"));
